@@ -23,12 +23,16 @@ CONSTANTS Kinds,      \* request kinds the client may send
           MaxConns,   \* connections, used one after the other
           CtxIds      \* identities of ctx objects
 
-\* kinds: "get" "form" "multipart" "chunked" (ordinary), "getnv" / "formnv" (query string / form
+\* kinds: "get" "form" "multipart" "chunked" (ordinary), "cont" / "contchunk" (form / chunked body behind an
+\* ACCEPTED Expect: 100-continue: ordinary requests as well), "getnv" / "formnv" (query string / form
 \* whose LAST argument has no '=': argument slots are reused between requests), "bad" (parse error), "reject" (expectation
 \* rejected; "rejectnb": the rejected request declares no body), "timeout" (TimeoutHandler fires), "hijack", "hclose" (handler asks for close),
 \* "abort" (chunked body cut inside a chunk, then the client goes away: with StreamRequestBody the
 \* handler is dispatched and finds the body broken, otherwise reading the body fails)
-Ends(k) == k \in {"bad", "reject", "rejectnb", "hijack", "hclose", "abort"}     \* connection ends after this request
+\* per-request limits (Server.HeaderReceived): "up" is granted a larger MaxRequestBodySize and carries
+\* a body above the server's own limit, "pg" is restricted to a tiny one and carries none; "over"
+\* carries the same large body WITHOUT a grant: it is refused (and the connection ends) unless the
+\* body is streamed.  A limit chosen for one request belongs to that request alone.
 
 VARIABLES
   stream,   \* StreamRequestBody (server configuration, fixed for the history)
@@ -45,7 +49,10 @@ VARIABLES
 
 vars == <<stream, pool, ctx, late, cur, conn, phase, n, kind, hist, seen>>
 
-Dispatches(k) == k \notin {"bad", "reject", "rejectnb"} /\ (k = "abort" => stream)
+\* connection ends after this request
+Ends(k) == k \in {"bad", "reject", "rejectnb", "hijack", "hclose", "abort"} \/ (k = "over" /\ ~stream)
+
+Dispatches(k) == k \notin {"bad", "reject", "rejectnb"} /\ (k \in {"abort", "over"} => stream)
 
 Clean == [req |-> 0, uv |-> {}, resp |-> 0]
 
